@@ -1,7 +1,165 @@
 """C08 — MeshGL export / re-import is lossless (structural clauses): writer/reader field agreement and the
 exporter's single-permutation rule (shared with C07)."""
+import re
 import c07
+import tree as T
 from db import AnalysisBroken
+
+# Facts about C/C++ number formatting (IEEE double: 53-bit significand, 17 significant decimal digits suffice and
+# are necessary; 13 hex digits after the point):  which (notation, precision) pairs reproduce every finite double.
+KNOWN_CONSTANTS = {'std::numeric_limits<double>::max_digits10': 17, 'std::numeric_limits<double>::digits10': 15,
+                   'DBL_DECIMAL_DIG': 17, 'DBL_DIG': 15}
+HEX_PARSERS = {'strtod', 'std::strtod', 'std::stod', 'std::from_chars', 'sscanf', 'std::sscanf', 'strtold'}
+SAMPLES = {
+    'scientific': ['1.2345678901234567890e-07', '-9.0123455679012349000e+300', '0.0000000000000000000e+00'],
+    'fixed': ['0.0000012345678901234', '-12.5000000000000000000'],
+    'general': ['1.234567890123456789e-07', '-12.5', '0'],
+    'hexfloat': ['0x1.3c0ca428c59fbp+0', '-0x1.0000000000000p-1022', '0x0.0000000000000p+0'],
+}
+
+
+def exact(notation, prec):
+    """does (notation, precision) print every finite double so that it reads back bit-identically"""
+    if notation == 'hexfloat':
+        return prec is None or prec >= 13
+    if prec is None:
+        return False
+    if notation == 'scientific':
+        return prec >= 16          # 1 + prec significant digits
+    if notation == 'general':
+        return prec >= 17
+    return False                   # fixed: significant digits depend on the magnitude
+
+
+def const_int(n):
+    n = T.strip_copy(n)
+    if n.get('k') == 'int':
+        return n['v']
+    if n.get('k') == 'var' and n['n'] in KNOWN_CONSTANTS:
+        return KNOWN_CONSTANTS[n['n']]
+    return None
+
+
+def fold_string(n, inits, depth=0):
+    """constant-fold std::string concatenations of literals and (static) locals"""
+    n = T.strip_copy(n)
+    k = n.get('k')
+    if k == 'str':
+        return n['v']
+    if k == 'var' and n['n'] in inits and depth < 8:
+        return fold_string(inits[n['n']], inits, depth + 1)
+    if k == 'call' and n.get('op') == '+':
+        a, b = fold_string(n['args'][0], inits, depth + 1), fold_string(n['args'][1], inits, depth + 1)
+        return None if a is None or b is None else a + b
+    if k == 'ctor' and n.get('args'):
+        return fold_string(n['args'][0], inits, depth + 1)
+    return None
+
+
+def rule_text(chk, db, cfgname):
+    chk.rule('C08.6', 'OBJ text path: every number format the writer can select reproduces every finite double '
+             '(hexfloat with >= 13 digits, scientific with precision >= 16, general with precision >= 17; never '
+             'fixed), the reader\'s vertex and header grammar accepts each of those forms, and the reader\'s '
+             'conversion handles hexfloat when the writer can emit it')
+    ws = [f for f in db.functions.values() if f['name'].split('::<lambda')[0] == 'manifold::WriteOBJWithEpsilon'
+          and f.get('blocks')]
+    rs = [f for f in db.functions.values() if f['name'] == 'manifold::ReadOBJWithEpsilon' and f.get('blocks')]
+    if not ws or len(rs) != 1:
+        if cfgname.startswith('seq') or cfgname.startswith('par'):
+            raise AnalysisBroken('C08.6: OBJ writer/reader not found')
+    rd = rs[0]
+    notations = []   # (notation, line)
+    precisions = []
+    printf_formats = []
+    for f in ws:
+        for b in f['blocks']:
+            for e in b['ev']:
+                if e.get('k') != 'call':
+                    continue
+                if e.get('op') == '<<' and e.get('args'):
+                    a = T.strip_copy(e['args'][-1])
+                    if a.get('k') == 'fn' and a['n'] in ('std::fixed', 'std::scientific', 'std::hexfloat',
+                                                        'std::defaultfloat'):
+                        notations.append(({'std::defaultfloat': 'general'}.get(a['n'], a['n'][5:]), e.get('ln')))
+                if T.short(e.get('fn', '')) == 'setprecision':
+                    precisions.append((const_int(e['args'][0]), e.get('ln')))
+                if T.short(e.get('fn', '')) in ('snprintf', 'sprintf', 'printf', 'fprintf'):
+                    for a in e['args']:
+                        a = T.strip_copy(a)
+                        if a.get('k') == 'str' and '%' in a['v']:
+                            printf_formats.append((a['v'], e.get('ln')))
+    if not precisions and not printf_formats:
+        raise AnalysisBroken('C08.6: no number format found in the OBJ writer')
+    forms = []   # (notation, precision, line, description)
+    prec = min((p for p, _ in precisions if p is not None), default=None)
+    if any(p is None for p, _ in precisions):
+        prec = None
+    if not notations:
+        notations = [('general', precisions[0][1] if precisions else None)]
+    for nt, ln in notations:
+        forms.append((nt, prec, ln, 'stream << std::%s << setprecision(%s)' % (nt, prec)))
+    for fmt, ln in printf_formats:
+        for m in re.finditer(r'%[-+ #0]*\d*(?:\.(\d+))?(l?[aAeEfFgG])', fmt):
+            conv = m.group(2)[-1].lower()
+            p = int(m.group(1)) if m.group(1) else None
+            nt = {'a': 'hexfloat', 'e': 'scientific', 'f': 'fixed', 'g': 'general'}[conv]
+            if p is None and conv != 'a':
+                p = 6
+            forms.append((nt, p, ln, 'printf "%s"' % fmt))
+    # reader grammar
+    inits = {}
+    for b in rd['blocks']:
+        for e in b['ev']:
+            if e.get('k') == 'decl':
+                for v in e['vars']:
+                    if v.get('init') is not None:
+                        inits[v['n']] = v['init']
+    patterns = {}
+    for name, init in inits.items():
+        i = T.strip_copy(init)
+        if i.get('k') == 'ctor' and T.short(i.get('cls', '')) == 'basic_regex':
+            s = fold_string(i['args'][0], inits)
+            if s is None:
+                raise AnalysisBroken('C08.6: regex %s is not a constant string' % name)
+            patterns[name] = s
+    vertex = [p for p in patterns.values() if p.startswith('^v')]
+    header = [p for p in patterns.values() if p.startswith('^# ')]
+    if len(vertex) != 1 or not header:
+        raise AnalysisBroken('C08.6: vertex/header patterns of the OBJ reader not found')
+    # conversion of the captured text
+    conv_calls = set()
+    for b in rd['blocks']:
+        for e in b['ev']:
+            if e.get('k') == 'call' and e.get('fk') and 'sub_match' in e['fk']:
+                for g in db.fn(T.basename(e['fn'])):
+                    for bb in g.get('blocks', []):
+                        for ee in bb['ev']:
+                            if ee.get('k') == 'call':
+                                conv_calls.add(ee.get('fn', ''))
+    for nt, p, ln, desc in forms:
+        chk.count('c08.6.formats')
+        ex = exact(nt, p)
+        accepted = all(re.match(vertex[0] + '$', 'v %s %s %s' % (s, s, s)) for s in SAMPLES[nt]) and \
+            all(any(re.match(h + '$', h.split('(')[0].lstrip('^') + s) for s in SAMPLES[nt][:1]) for h in header)
+        converted = nt != 'hexfloat' or bool(conv_calls & HEX_PARSERS)
+        ok = ex and accepted and converted
+        chk.obligation(ok, {'writer format': desc, 'line': ln, 'reproduces every double': ex,
+                            'accepted by reader grammar': accepted, 'reader conversion handles it': converted})
+        if not ex:
+            chk.violation('C08.6', ws[0], 'inexact number format %s precision %s' % (nt, p),
+                          '%s does not print enough significant digits for every finite double (%s): positions do not '
+                          'round-trip exactly through WriteOBJ/ReadOBJ' %
+                          (desc, 'fixed notation drops digits of small magnitudes' if nt == 'fixed' else
+                           'precision too small'), line=ln, cfg=cfgname)
+        if not accepted:
+            chk.violation('C08.6', rd, 'reader grammar rejects %s numbers' % nt,
+                          'the writer can emit %s numbers (%s) but the reader\'s vertex/header patterns do not match '
+                          'them: such lines are skipped and the mesh comes back without them' % (nt, desc),
+                          cfg=cfgname)
+        if not converted:
+            chk.violation('C08.6', rd, 'reader conversion cannot parse hexfloat',
+                          'the writer can emit hexfloat numbers but the reader converts text with %s only; istream '
+                          'extraction does not read hexfloat' % sorted(conv_calls)[:4], cfg=cfgname)
 
 
 def main(chk, tier):
@@ -18,13 +176,15 @@ def main(chk, tier):
         c07.rule_runs(chk, db, cfgname, 'C08.3')
         c07.rule_emission(chk, db, cfgname, 'C08.4')
         c07.rule_run_domain(chk, db, cfgname, 'C08.5')
+        rule_text(chk, db, cfgname)
     n = len(configs)
     chk.floor('c08.1.written_fields', 16 * n)
     chk.floor('c08.2.attribute_flows', 4 * n)
+    chk.floor('c08.6.formats', 2 * n)
     return chk.finish(
         'Writer/reader agreement between the MeshGL exporter (GetMeshGLImpl) and importer (Impl(MeshGLP)) for both '
         'instantiations: every field the exporter fills is consumed by the importer (directly or via the MeshGLP '
         'accessors); the exporter moves all per-triangle/per-halfedge attributes (triVerts, faceID, tangents) by the '
         'same sorted triangle map; the run arrays stay parallel. Necessary for a lossless round trip; does not '
-        'decide bit-equality of values, Morton re-sorting, float rounding or the OBJ text path.',
+        'decide bit-equality of values, Morton re-sorting, float rounding. C08.6 decides the format-level necessary condition of the OBJ text path: the selectable number formats are exact for every double and the reader accepts what the writer emits.',
         assumptions=['field use is syntactic: a field read only to be discarded would count as read'])
